@@ -10,6 +10,8 @@
 //! signature names as the core-level engines, so the two views of one property share one list
 //! of known findings.
 
+mod grow;
+
 use proptest::prelude::*;
 use serde::{Deserialize, Serialize};
 use std::sync::atomic::{AtomicU32, AtomicU64, Ordering};
@@ -79,6 +81,8 @@ pub enum Body {
     PanicStatic,
     PanicString,
     Calls(Vec<Call>),
+    /// a recursion through `open_coroutine::maybe_grow` (C23)
+    Grow(grow::Grow),
 }
 
 impl Body {
@@ -100,6 +104,8 @@ pub enum Op {
     Join { task: u16, timeout_ms: Option<u16> },
     Cancel { task: u16 },
     Main(Call),
+    /// the same recursion on the main thread (plain-thread path of the stack growth)
+    MainGrow(grow::Grow),
     Pause(u8),
 }
 
@@ -134,6 +140,9 @@ pub struct TaskLog {
     pub ended: u64,
     pub runs: u32,
     pub calls: Vec<CallLog>,
+    /// value returned by a `Grow` body (0 = not that kind of body / never got there)
+    #[serde(default)]
+    pub grown: String,
 }
 
 #[derive(Serialize, Deserialize, Clone, Debug)]
@@ -166,6 +175,9 @@ pub struct Log {
     pub joins: Vec<JoinLog>,
     pub cancels: Vec<CancelLog>,
     pub main_calls: Vec<CallLog>,
+    /// (case, value) of every recursion run on the main thread
+    #[serde(default)]
+    pub main_grows: Vec<(grow::Grow, String)>,
     pub host_calm: bool,
 }
 
@@ -210,6 +222,7 @@ struct Shared {
     started: AtomicU64,
     ended: AtomicU64,
     calls: Mutex<Vec<CallLog>>,
+    grown: AtomicU64,
 }
 
 /// is `name` resolved to the hook library (and not to libc)?
@@ -271,7 +284,7 @@ fn child_main() -> i32 {
         match op {
             Op::Task { body, prio } => {
                 let k = shared.len();
-                let sh = Arc::new(Shared { runs: AtomicU32::new(0), started: AtomicU64::new(0), ended: AtomicU64::new(0), calls: Mutex::new(vec![]) });
+                let sh = Arc::new(Shared { runs: AtomicU32::new(0), started: AtomicU64::new(0), ended: AtomicU64::new(0), calls: Mutex::new(vec![]), grown: AtomicU64::new(0) });
                 let (s2, b2) = (sh.clone(), body.clone());
                 submitted.push(now());
                 let h: Handle = open_coroutine::task!(
@@ -294,6 +307,7 @@ fn child_main() -> i32 {
                                     s2.calls.lock().unwrap_or_else(std::sync::PoisonError::into_inner).push(l);
                                 }
                             }
+                            Body::Grow(g) => s2.grown.store(grow::run(g), Ordering::SeqCst),
                         }
                         s2.ended.store(now(), Ordering::SeqCst);
                         expected_value(k)
@@ -344,6 +358,7 @@ fn child_main() -> i32 {
                 log.cancels.push(CancelLog { task: k, at, done: now(), ok, started_before: sb, ended_before: eb });
             }
             Op::Main(call) => log.main_calls.push(do_call(call)),
+            Op::MainGrow(g) => log.main_grows.push((*g, grow::run(g).to_string())),
             Op::Pause(ms) => {
                 // not a hooked call: poll(NULL, 0, ms) is not interposed
                 unsafe {
@@ -388,6 +403,7 @@ fn child_main() -> i32 {
             ended: sh.ended.load(Ordering::SeqCst),
             runs: sh.runs.load(Ordering::SeqCst),
             calls: sh.calls.lock().unwrap_or_else(std::sync::PoisonError::into_inner).clone(),
+            grown: sh.grown.load(Ordering::SeqCst).to_string(),
         });
     }
     child::emit(serde_json::json!({"ev":"result","log":log}));
@@ -641,6 +657,28 @@ pub fn judge(prop: &str, c: &Case, run: Run) -> Outcome {
                 }
             }
         }
+        "C23" => {
+            let grows: Vec<(&TaskLog, &grow::Grow)> = l.tasks.iter().filter_map(|t| if let Body::Grow(g) = &t.body { Some((t, g)) } else { None }).collect();
+            o.nontrivial = !grows.is_empty() || !l.main_grows.is_empty();
+            o = o.class_if(!grows.is_empty(), "recursion-inside-a-task").class_if(!l.main_grows.is_empty(), "recursion-on-the-main-thread").class_if(grows.iter().any(|(_, g)| g.again_at.is_some()) || l.main_grows.iter().any(|(g, _)| g.again_at.is_some()), "second-descent-from-a-frame");
+            for (g, v) in &l.main_grows {
+                let want = grow::model(g).to_string();
+                if *v != want {
+                    o.set_fail("C23/api/thread/value-changed", format!("main thread: {g:?} returned {v}, the model says {want} (u64::MAX = second descent differed, u64::MAX - 1 = maybe_grow failed)"));
+                    return o;
+                }
+            }
+            for (t, g) in grows {
+                if targets.contains(&t.k) || t.ended == 0 {
+                    continue; // C01's business
+                }
+                let want = grow::model(g).to_string();
+                if t.grown != want {
+                    o.set_fail("C23/api/coroutine/value-changed", format!("task {}: {g:?} returned {}, the model says {want} (u64::MAX = second descent differed, u64::MAX - 1 = maybe_grow failed)", t.k, t.grown));
+                    return o;
+                }
+            }
+        }
         "C15" => {
             // every task that only waits gets a worker of its own (unbounded pools): its latency
             // is its own waiting time, whatever the others do
@@ -699,12 +737,20 @@ fn call() -> impl Strategy<Value = Call> {
     ]
 }
 
-fn body(w_calls: u32) -> impl Strategy<Value = Body> {
+fn grow_case() -> impl Strategy<Value = grow::Grow> {
+    (1u8..=60, 0u8..3, 12u8..=48, 16u8..=64, proptest::option::weighted(0.5, 0u8..60)).prop_map(|(depth, frame, red_kib, extra_kib, again_at)| {
+        let f_kib = [1u8, 4, 8][usize::from(frame)];
+        grow::Grow { depth, frame, red_kib: red_kib.max(f_kib + 8), extra_kib, again_at: again_at.map(|a| a % depth) }
+    })
+}
+
+fn body(w_calls: u32, w_grow: u32) -> impl Strategy<Value = Body> {
     prop_oneof![
         4 => Just(Body::Value),
         2 => Just(Body::PanicStatic),
         2 => Just(Body::PanicString),
         w_calls => proptest::collection::vec(call(), 1..4).prop_map(Body::Calls),
+        w_grow => grow_case().prop_map(Body::Grow),
     ]
 }
 
@@ -715,11 +761,19 @@ pub fn strategy(prop: &'static str) -> impl Strategy<Value = Case> {
         "C02" => (6, 6, 0, 1, 2, 4),
         "C13" => (7, 2, 4, 0, 3, 8),
         "C14" => (5, 1, 0, 5, 1, 16),
+        "C23" => (8, 2, 0, 0, 1, 2),
         _ => (8, 1, 0, 1, 2, 24),
+    };
+    // weight of growing bodies / main-thread recursions (C23 only; C01 gets a few as ordinary work)
+    let (wg, wmg) = match prop {
+        "C23" => (30, 4),
+        "C01" => (1, 0),
+        _ => (0, 0),
     };
     let timeout = prop_oneof![2 => Just(None), 1 => Just(Some(30u16)), 2 => (30u16..400).prop_map(Some), 2 => (400u16..3000).prop_map(Some)];
     let op = prop_oneof![
-        wt => (body(wb), -3i8..4).prop_map(|(body, prio)| Op::Task { body, prio }),
+        wt => (body(wb, wg), -3i8..4).prop_map(|(body, prio)| Op::Task { body, prio }),
+        wmg => grow_case().prop_map(Op::MainGrow),
         wj => (any::<u16>(), timeout).prop_map(|(task, timeout_ms)| Op::Join { task, timeout_ms }),
         wc => any::<u16>().prop_map(|task| Op::Cancel { task }),
         wm => call().prop_map(Op::Main),
@@ -735,6 +789,7 @@ fn rule(prop: &str) -> &'static str {
         "C01" => "[through the public API] fresh process per case: init(event loops 1..3, hook flag, worker limit), 2..39 ops out of task!(value | panic | timed libc calls), join/timeout_join, timed libc call on the main thread, pause; every task is awaited at the end; non-trivial = at least 2 tasks that were never cancelled",
         "C02" => "[through the public API] fresh process per case: 2..13 ops out of task!(value (u64, String) | &str panic | String panic | timed libc calls), join() (one loop only) and timeout_join(30 ms .. 3 s), timed libc call on the main thread, pause; non-trivial = at least one judged join",
         "C13" => "[through the public API] fresh process per case: worker limit 1, 2 or default; 2..13 ops out of task!, try_cancel, join, pause; non-trivial = at least one cancel",
+        "C23" => "[through the public API] fresh process per case: tasks whose body is a recursion of 1..60 levels (1/4/8 KiB frames, red zone 12..48 KiB, segment = red zone + 16..64 KiB) entered level by level through open_coroutine::maybe_grow, optionally descending a second time from one level, next to ordinary tasks; the same recursion on the main thread; non-trivial = at least one such recursion",
         "C14" => "[through the interposed libc symbols] fresh process per case: sleep/usleep/nanosleep/select with generated (also invalid) time arguments, inside tasks and on the main thread, hook flag on and off; non-trivial = a call made inside a task, or on the main thread with the hook flag on",
         _ => "[through the interposed libc symbols] fresh process per case: tasks that wait in sleep/usleep/nanosleep/select for generated times, unbounded pools; non-trivial = at least 2 waiting tasks whose waits overlap",
     }
@@ -767,6 +822,7 @@ fn main_for(args: &Args, prop: &'static str) -> i32 {
         "C02" => (200, 4_000),
         "C13" => (160, 3_000),
         "C14" => (200, 4_000),
+        "C23" => (150, 3_000),
         _ => (120, 2_000),
     };
     ev.add(vkit::run_regress_in(prop, &format!("{prop}-api"), |_s, case| exec(prop, &serde_json::from_value(case).expect("case"))));
@@ -786,6 +842,7 @@ fn main() {
         "C13" => main_for(&args, "C13"),
         "C14" => main_for(&args, "C14"),
         "C15" => main_for(&args, "C15"),
+        "C23" => main_for(&args, "C23"),
         other => {
             eprintln!("vapi: unknown engine {other}");
             2
